@@ -234,7 +234,14 @@ func (g *fragGen) stmt(ind, depth int, inLoop, top bool) {
 		g.block(ind+1, depth+1, true, false)
 		g.line(ind, "end")
 	case k < 16: // for range without loop variable
-		g.line(ind, "for range "+g.rangeHdr())
+		switch g.rng.Intn(4) {
+		case 0:
+			g.line(ind, "for range "+g.arr())
+		case 1:
+			g.line(ind, "for range "+g.str(1))
+		default:
+			g.line(ind, "for range "+g.rangeHdr())
+		}
 		g.block(ind+1, depth+1, true, false)
 		g.line(ind, "end")
 	default:
